@@ -58,6 +58,10 @@ CLAIMED = {
   text="TLV.encode_list is proved equal to the canonical TLV8 spec function for every item list (loop invariants, all lengths) and to raise ValueError only for an invalid type/non-empty separator; TLV.decode_bytearray/decode_bytes are proved total (only TlvParseException escapes, exactly on malformed input), equal to the recursive decoding spec incl. merge and 'expected' filter, and to leave the argument unchanged.",
   note="Trusted: pyvc's encoding of Python semantics (DESIGN 2.3), cvc5/z3, models of bytearray/list/struct builtins (DESIGN 3.1). The round-trip lemma dec(enc(L)) = L over the two spec functions and BLE fragment reassembly are not yet discharged.",
   ref="4/C15"),
+ "C16": dict(
+  text="Every TLVStruct subclass is found by reflection (26 classes) and gets its own contracts. Encode_<class>: TLVStruct.encode, executed on a message whose fields are decided lazily (unset / any value of the declared type; nested messages opaque with an arbitrary canonical encoding, their encode() used by contract under a nesting-rank measure), is proved by loop invariants over the field loop and the fragment loop to return exactly the canonical encoding: fields in declaration order, unset fields skipped, maximal 255-byte fragments for values of EVERY length, lists of messages joined by zero-length separators. tlv_iterator and tlv_array are proved, for EVERY byte string with complete item headers, to read exactly the items / list cuts of the reading specification (fragment re-joining with look-ahead, stop at end of input) and to raise nothing. Lemmas proved by induction (lemma bodies are proof scripts, recursion checked against a measure): back-to-front and front-to-back fragment specifications agree; the fragments of a value, followed by end of input / another type / a short last fragment, are read back as ONE item with exactly that value; positional notation for 1..16-byte integers. Decode_<class>: TLVStruct.decode, executed on the canonical encoding of a message (shapes: none, each field alone, every second field, all fields - or every window of three consecutive fields for classes of more than 5 fields), returns exactly the field values that were encoded (u8..u128, bu16, str, bytes, IntEnum, nested message) and leaves the rest unset. Scalar serialisers/deserialisers are proved against the byte-layout formulas. Four findings are recorded (packed Sequence[u16] linked-service lists are mis-decoded / cannot be encoded; Meshcop declares two TLV types twice).",
+  note="Shapes of the decode contracts and list lengths (0..3 messages, 0..6 ids) are enumerated, each shape proved completely. Decoding LISTS of messages end to end (split on separators + per-item decode) and whole accessory databases is NOT proved: tlv_array is proved against its specification for all inputs, but the lemma split(join(items)) = items for opaque nested encodings is not discharged; that part is decided only by the labelled bounded native stand-in (harness/tlv8_structs.py: every class by reflection against an independent reference codec, sizes 1,254,255,256,510,511, lists of 1..3, databases 1..3 x 1..3 x 1..3, id lists 0..6 covering every byte value). Zero-length values (empty str/bytes/list, nested message with no field set) are outside the property's stated range and are skipped by encode. float fields have no serialiser and stay unset. Characteristic.value struct access (characteristic.py:184-206) is not under contract.",
+  ref="4/C16"),
  "C17": dict(
   text="pdu.encode_pdu (generator, symbolic loop) is proved to emit a first fragment with the 7-byte header and size-7 body bytes, continuations with control 0x80 + tid, every fragment <= fragment size, and payloads that a conformant accessory reassembles to exactly the body, for every body and fragment size >= 8; decode_pdu / decode_pdu_continuation are proved to reject exactly wrong tid / missing continuation flag / undefined status and to return the header-layout slices otherwise.",
   note="Trusted: struct pack/unpack model, pyvc semantics. BLE _write_pdu/_read_pdu and the CoAP batch codecs are not yet under contract.",
